@@ -349,41 +349,53 @@ func (rn *runner) runAnnounce(sc scenario) {
 	rn.record(sc, oID, payloads, advs)
 }
 
-// runFullTable: node M learns routes of several origins from peer P (more than
-// 255 per origin possible through several advertisements), has local routes of
-// its own, and replays its table to a new peer N.
-func (rn *runner) runFullTable(sc scenario) {
-	c := rn.c
-	r := vh.NewRand(sc.CaseSeed)
-	mID, pID, nID := mkID(r, 0xC0), mkID(r, 0xD0), mkID(r, 0xE0)
-	m := newNode(mID, label(r, sc.NameLen)) // no peers while learning: nothing is re-flooded
-	nb := newNode(nID, "nb")
-	defer m.fl.Stop()
-	defer nb.fl.Stop()
-	populate(r, m, scenario{NCIDR: sc.NCIDR / 3, NDomain: sc.NDomain / 3, NForward: sc.NForward / 3, LongDom: sc.LongDom, LongFwd: sc.LongFwd}, 9)
-	for oi := 0; oi < sc.Origins; oi++ {
-		oID := mkID(r, byte(0x10+oi))
-		o := newNode(oID, label(r, 5), mID)
-		populate(r, o, sc, 10+oi)
-		// the origin's announcement reaches M via P: emulate P's re-flood by delivering the
-		// origin's own frames with P as the sending peer (path/seen-by as sent by the origin)
-		o.fl.AnnounceLocalRoutes()
-		for _, w := range o.snd.wire {
-			m.deliver(pID, w.data)
+// bestAgents keeps, of the agent presence entries ("a|<agent>|<metric>"), the
+// lowest metric per agent: a table holds one presence route per (agent,
+// origin, next hop), and everything a peer replays has that peer as next hop.
+func bestAgents(l []string) []string {
+	best := map[string]int{}
+	var out []string
+	for _, e := range l {
+		if !strings.HasPrefix(e, "a|") {
+			out = append(out, e)
+			continue
 		}
-		o.fl.Stop()
+		parts := strings.Split(e, "|")
+		var m int
+		fmt.Sscan(parts[2], &m)
+		if old, ok := best[parts[1]]; !ok || m < old {
+			best[parts[1]] = m
+		}
 	}
-	if p := vh.Recover(func() { m.fl.SendFullTable(nID) }); p != "" {
+	for a, m := range best {
+		out = append(out, fmt.Sprintf("a|%s|%d", a, m))
+	}
+	sort.Strings(out)
+	return out
+}
+
+type advKey struct {
+	origin identity.AgentID
+	seq    uint64
+}
+
+// replayAndCheck lets M replay its table to the new peer N and evaluates the
+// monitors: N's tables equal M's (metric + 1), no two replayed advertisements
+// share (origin, sequence) - the receiver's seen cache would drop the second -
+// and a replayed foreign group carries a sequence number its origin issued.
+func (rn *runner) replayAndCheck(sc scenario, m, nb *node, issued map[advKey]bool) {
+	c := rn.c
+	if p := vh.Recover(func() { m.fl.SendFullTable(nb.id) }); p != "" {
 		c.Fail("full-table-panic", "SendFullTable panicked: "+p, sc)
 		return
 	}
 	var derr []string
 	for _, w := range m.snd.wire {
-		if e := nb.deliver(mID, w.data); e != "" {
+		if e := nb.deliver(m.id, w.data); e != "" {
 			derr = append(derr, e)
 		}
 	}
-	want := tableOf(m, &nID, 1)
+	want := tableOf(m, &nb.id, 1)
 	got := tableOf(nb, nil, 0)
 	c.Count(fmt.Sprintf("full-table:frames=%d", len(m.snd.wire)))
 	var problems []string
@@ -392,13 +404,30 @@ func (rn *runner) runFullTable(sc scenario) {
 		if len(w) > 255 {
 			big = true
 		}
-		if d := diff(w, got[k]); d != "" {
+		if d := diff(bestAgents(w), bestAgents(got[k])); d != "" {
 			problems = append(problems, fmt.Sprintf("origin %s (%d routes): %s", k[:8], len(w), d))
 		}
 	}
 	for k, g := range got {
 		if _, known := want[k]; !known {
 			problems = append(problems, fmt.Sprintf("origin %s: %d unexpected routes", k[:8], len(g)))
+		}
+	}
+	payloads, advs, _ := payloadsOf(m.snd.wire)
+	seenKeys := map[advKey]int{}
+	for _, a := range advs {
+		if a == nil {
+			continue
+		}
+		k := advKey{a.OriginAgent, a.Sequence}
+		seenKeys[k]++
+		if a.OriginAgent != m.id && issued != nil && !issued[k] {
+			c.Fail("replay-foreign-sequence", fmt.Sprintf("replayed advertisement of origin %s carries sequence %d, which that origin never issued", a.OriginAgent.ShortString(), a.Sequence), sc)
+		}
+	}
+	for k, n := range seenKeys {
+		if n > 1 {
+			c.Fail("replay-duplicate-key", fmt.Sprintf("%d replayed advertisements share origin %s sequence %d: the receiver's seen cache keeps only the first", n, k.origin.ShortString(), k.seq), sc)
 		}
 	}
 	if len(problems) > 0 || len(derr) > 0 || len(m.snd.sendErrs) > 0 {
@@ -415,28 +444,145 @@ func (rn *runner) runFullTable(sc scenario) {
 		}
 		c.Fail(sig, fmt.Sprintf("replayed table in %d frame(s): %v; send errors %v; decode errors %v", len(m.snd.wire), problems, m.snd.sendErrs, derr), sc)
 	}
-	// correspondence: one case per origin group, frames grouped by origin in emission order
-	payloads, advs, _ := payloadsOf(m.snd.wire)
-	groups := map[identity.AgentID][]int{}
-	var order []identity.AgentID
+	// correspondence: the replaying agent's own routes form one announcement with
+	// fresh consecutive sequence numbers (CAnn); every foreign (origin, sequence,
+	// path) group is replayed under its origin's sequence number (CRep)
+	type gk struct {
+		origin identity.AgentID
+		seq    uint64
+		path   string
+	}
+	groups := map[gk][]int{}
+	var order []gk
 	for i, a := range advs {
 		if a == nil {
 			continue
 		}
-		if _, seen := groups[a.OriginAgent]; !seen {
-			order = append(order, a.OriginAgent)
+		k := gk{origin: a.OriginAgent}
+		if a.OriginAgent != m.id {
+			k = gk{a.OriginAgent, a.Sequence, string(protocol.EncodePath(a.Path))}
 		}
-		groups[a.OriginAgent] = append(groups[a.OriginAgent], i)
+		if _, seen := groups[k]; !seen {
+			order = append(order, k)
+		}
+		groups[k] = append(groups[k], i)
 	}
-	for _, og := range order {
+	for _, k := range order {
 		var ps [][]byte
 		var as []*protocol.RouteAdvertise
-		for _, i := range groups[og] {
+		for _, i := range groups[k] {
 			ps = append(ps, payloads[i])
 			as = append(as, advs[i])
 		}
-		rn.record(sc, og, ps, as)
+		if k.origin == m.id {
+			rn.record(sc, k.origin, ps, as)
+		} else {
+			rn.recordReplay(sc, ps, as)
+		}
 	}
+}
+
+// recordReplay adds a CRep case: one foreign group as replayed.
+func (rn *runner) recordReplay(sc scenario, payloads [][]byte, advs []*protocol.RouteAdvertise) {
+	if len(rn.coq) >= rn.maxRec {
+		rn.c.Count("monitor-only")
+		return
+	}
+	var routes []string
+	for _, a := range advs {
+		for _, rt := range a.Routes {
+			routes = append(routes, cRoute(rt))
+		}
+	}
+	pl := make([]string, len(payloads))
+	for i, p := range payloads {
+		pl[i] = cB(p)
+	}
+	a := advs[0]
+	rn.c.Case(fmt.Sprintf("replay/%d/%d", len(routes), len(a.Path)), len(routes) > 0, sc)
+	rn.coq = append(rn.coq, fmt.Sprintf("CRep %s %s %d %s %s %s", cB(a.OriginAgent[:]), cB([]byte(a.OriginDisplayName)), a.Sequence,
+		vh.CoqList(routes), cIDs(a.Path), vh.CoqList(pl)))
+}
+
+// runFullTable: node M is a direct peer of several origins, receives their
+// (possibly split) announcements with their consecutive sequence numbers, has
+// local routes of its own, and replays its table to a new peer N.
+func (rn *runner) runFullTable(sc scenario) {
+	r := vh.NewRand(sc.CaseSeed)
+	mID, nID := mkID(r, 0xC0), mkID(r, 0xE0)
+	m := newNode(mID, label(r, sc.NameLen)) // no peers while learning: nothing is re-flooded
+	nb := newNode(nID, "nb")
+	defer m.fl.Stop()
+	defer nb.fl.Stop()
+	populate(r, m, scenario{NCIDR: sc.NCIDR / 3, NDomain: sc.NDomain / 3, NForward: sc.NForward / 3, LongDom: sc.LongDom, LongFwd: sc.LongFwd}, 9)
+	issued := map[advKey]bool{}
+	for oi := 0; oi < sc.Origins; oi++ {
+		oID := mkID(r, byte(0x10+oi))
+		o := newNode(oID, label(r, 5), mID)
+		populate(r, o, sc, 10+oi)
+		for round := 0; round < 1+oi%2; round++ { // some origins have announced twice (periodic re-announcement)
+			o.snd.wire = nil
+			o.fl.AnnounceLocalRoutes()
+			_, advs, _ := payloadsOf(o.snd.wire)
+			for _, a := range advs {
+				if a != nil {
+					issued[advKey{a.OriginAgent, a.Sequence}] = true
+				}
+			}
+			for _, w := range o.snd.wire {
+				m.deliver(oID, w.data)
+			}
+		}
+		o.fl.Stop()
+	}
+	rn.replayAndCheck(sc, m, nb, issued)
+}
+
+// runTwoPaths: M receives the same advertisement of origin O twice, from two
+// different peers over two different paths, the second time after its seen
+// cache entry has expired (the routes are still in its tables). The agent
+// table then holds O's presence route once per next hop, i.e. with two
+// paths. M replays its table to N: N must still learn all of O's routes.
+func (rn *runner) runTwoPaths(sc scenario) {
+	r := vh.NewRand(sc.CaseSeed)
+	oID, mID, p1, p2, xID, nID := mkID(r, 0xA2), mkID(r, 0xC2), mkID(r, 0xD2), mkID(r, 0xD3), mkID(r, 0xD4), mkID(r, 0xE2)
+	o := newNode(oID, label(r, sc.NameLen), p1)
+	m := newNode(mID, "m")
+	nb := newNode(nID, "nb")
+	defer o.fl.Stop()
+	defer m.fl.Stop()
+	defer nb.fl.Stop()
+	populate(r, o, sc, 1)
+	o.fl.AnnounceLocalRoutes()
+	_, advs, _ := payloadsOf(o.snd.wire)
+	issued := map[advKey]bool{}
+	bump := func(rs []protocol.Route, by uint16) []protocol.Route {
+		out := append([]protocol.Route{}, rs...)
+		for i := range out {
+			out[i].Metric += by
+		}
+		return out
+	}
+	for pass := 0; pass < 2; pass++ {
+		for _, a := range advs {
+			if a == nil {
+				continue
+			}
+			issued[advKey{a.OriginAgent, a.Sequence}] = true
+			if pass == 0 { // as re-flooded by P1, a direct peer of O
+				path := append([]identity.AgentID{p1}, a.Path...)
+				m.fl.HandleRouteAdvertise(p1, a.OriginAgent, a.OriginDisplayName, a.Sequence, bump(a.Routes, 1),
+					&protocol.EncryptedData{Data: protocol.EncodePath(path)}, append(append([]identity.AgentID{}, a.SeenBy...), p1))
+			} else { // as re-flooded by P2, which got it from X, a direct peer of O
+				path := append([]identity.AgentID{p2, xID}, a.Path...)
+				m.fl.HandleRouteAdvertise(p2, a.OriginAgent, a.OriginDisplayName, a.Sequence, bump(a.Routes, uint16(sc.Origins)),
+					&protocol.EncryptedData{Data: protocol.EncodePath(path)}, append(append([]identity.AgentID{}, a.SeenBy...), xID, p2))
+			}
+		}
+		// stands for the seen-cache TTL (5 minutes by default) elapsing while the routes stay in the tables
+		m.fl.ClearSeenCache()
+	}
+	rn.replayAndCheck(sc, m, nb, issued)
 }
 
 // runForward: an origin's announcement reaches agent M after many hops (path and
@@ -461,6 +607,7 @@ func (rn *runner) runForward(sc scenario) {
 			hops[i][j] = byte(0x50 + i/90)
 		}
 	}
+	var received []*protocol.RouteAdvertise
 	for _, w := range o.snd.wire {
 		fr, err := protocol.Decode(w.data)
 		if err != nil {
@@ -475,8 +622,9 @@ func (rn *runner) runForward(sc scenario) {
 		seen := append(append([]identity.AgentID{}, adv.SeenBy...), append(hops, pID)...)
 		fwd := &protocol.RouteAdvertise{OriginAgent: adv.OriginAgent, OriginDisplayName: adv.OriginDisplayName, Sequence: adv.Sequence,
 			Routes: adv.Routes, Path: path, SeenBy: seen}
+		received = append(received, fwd)
 		m.fl.HandleRouteAdvertise(pID, fwd.OriginAgent, fwd.OriginDisplayName, fwd.Sequence, fwd.Routes,
-			&protocol.EncryptedData{Encrypted: false, Data: protocol.EncodePath(path)}, fwd.SeenBy)
+			&protocol.EncryptedData{Encrypted: false, Data: protocol.EncodePath(path)}, append([]identity.AgentID{}, fwd.SeenBy...))
 	}
 	var derr []string
 	var toN []wireMsg
@@ -489,24 +637,33 @@ func (rn *runner) runForward(sc scenario) {
 			derr = append(derr, e)
 		}
 	}
-	want := tableOf(o, nil, 1)[oID.String()]
-	want = append(want, fmt.Sprintf("a|%s|1", oID.String()))
-	sort.Strings(want)
+	// M re-floods every metric one higher than it received it (= the metric it stored),
+	// and N stores what it receives plus one
+	want := tableOf(m, nil, 1)[oID.String()]
 	got := tableOf(nb, nil, 0)[oID.String()]
+	announced := len(tableOf(o, nil, 0)[oID.String()]) + 1 // the origin's own routes and its presence route
 	c.Count(fmt.Sprintf("forward:frames=%d", len(toN)))
-	if d := diff(want, got); d != "" || len(derr) > 0 || len(m.snd.sendErrs) > 0 {
+	if d := diff(want, got); d != "" || len(derr) > 0 || len(m.snd.sendErrs) > 0 || len(want) != announced {
 		sig := "forward-mismatch"
 		if len(m.snd.sendErrs) > 0 {
 			sig = "forward-frame-too-large"
 		}
-		c.Fail(sig, fmt.Sprintf("re-flooded %d advertisement(s) at hop 255; downstream learned %d of %d; %s; send errors %v; decode errors %v",
-			len(toN), len(got), len(want), d, m.snd.sendErrs, derr), sc)
+		c.Fail(sig, fmt.Sprintf("re-flooded %d advertisement(s) at hop 255; the forwarder stored %d of %d routes, downstream learned %d; %s; send errors %v; decode errors %v",
+			len(toN), len(want), announced, len(got), d, m.snd.sendErrs, derr), sc)
 	}
-	payloads, advs, _ := payloadsOf(toN)
-	for i := range payloads {
-		if advs[i] != nil {
-			rn.record(sc, oID, payloads[i:i+1], advs[i:i+1])
+	// correspondence: each received advertisement and what M made of it
+	payloads, _, _ := payloadsOf(toN)
+	for i, in := range received {
+		if i >= len(payloads) || len(rn.coq) >= rn.maxRec {
+			break
 		}
+		routes := make([]string, len(in.Routes))
+		for j, rt := range in.Routes {
+			routes[j] = cRoute(rt)
+		}
+		c.Case(fmt.Sprintf("reflood/%d/%d", len(routes), len(in.Path)), true, sc)
+		rn.coq = append(rn.coq, fmt.Sprintf("CFwd %s %s %s %d %s %s %s %s", cB(mID[:]), cB(in.OriginAgent[:]), cB([]byte(in.OriginDisplayName)),
+			in.Sequence, vh.CoqList(routes), cIDs(in.Path), cIDs(in.SeenBy), cB(payloads[i])))
 	}
 }
 
@@ -516,6 +673,8 @@ func (rn *runner) run(sc scenario) {
 		rn.runFullTable(sc)
 	case "forward":
 		rn.runForward(sc)
+	case "two-paths":
+		rn.runTwoPaths(sc)
 	default:
 		rn.runAnnounce(sc)
 	}
@@ -552,6 +711,10 @@ func main() {
 		{Kind: "announce", Name: "forward-keys-300-bytes", NCIDR: 2, NForward: 3, LongFwd: 300, NameLen: 4},
 		{Kind: "forward", Name: "long-domains-after-255-hops", NDomain: 70, LongDom: 250, NameLen: 255},
 		{Kind: "forward", Name: "mixed-after-255-hops", NCIDR: 120, NDomain: 20, NForward: 20, LongDom: 200, LongFwd: 240, NameLen: 8},
+		{Kind: "two-paths", Name: "same-advertisement-via-two-peers-second-worse", NCIDR: 3, NDomain: 1, LongDom: 12, Origins: 2, NameLen: 4},
+		{Kind: "two-paths", Name: "same-advertisement-via-two-peers-equal-metric", NCIDR: 3, NDomain: 1, LongDom: 12, Origins: 1, NameLen: 4},
+		{Kind: "two-paths", Name: "presence-only-via-two-peers", Origins: 2, NameLen: 4},
+		{Kind: "two-paths", Name: "260-routes-via-two-peers", NCIDR: 260, Origins: 2, NameLen: 4},
 		{Kind: "full-table", Name: "two-origins-300-each", NCIDR: 300, NDomain: 3, NForward: 3, LongDom: 12, LongFwd: 6, Origins: 2, NameLen: 4},
 		{Kind: "full-table", Name: "long-domains", NDomain: 80, LongDom: 250, LongFwd: 6, Origins: 1, NameLen: 4},
 	}
@@ -565,7 +728,7 @@ func main() {
 		sizes = append(sizes, 509, 510, 511, 512, 600, 1000)
 	}
 	small := []int{0, 0, 1, 2, 3, 10, 40}
-	n := c.N(24, 600)
+	n := c.N(20, 600)
 	for i := 0; i < n; i++ {
 		sc := scenario{Kind: "announce", CaseSeed: int64(c.Rand.U64() >> 1), NameLen: c.Rand.Pick(0, 1, 8, 254, 255, 256, 300),
 			LongDom: c.Rand.Pick(8, 12, 30, 100, 200, 250, 253, 255, 256, 300), LongFwd: c.Rand.Pick(1, 6, 30, 120, 240, 249, 250, 251, 300)}
